@@ -212,8 +212,17 @@ class TrLoop(Tr):
             if srt != 'str':
                 self.fail(e, 'slice of something that is not the string')
             return '(substr %s %s %s)' % (t, self.z(e.slice.lower), self.z(e.slice.upper)), 'str'
+        if isinstance(e, ast.UnaryOp) and isinstance(e.op, ast.USub) and isinstance(e.operand, ast.Constant) and isinstance(e.operand.value, int):
+            return '(-%d)' % e.operand.value, 'Z'
         if isinstance(e, ast.Constant) and e.value == '':
             return '[]', 'str'
+        if isinstance(e, ast.Compare) and len(e.ops) == 1 and isinstance(e.ops[0], (ast.Eq, ast.NotEq)) \
+                and isinstance(e.comparators[0], ast.Constant) and e.comparators[0].value == '' \
+                and isinstance(e.left, ast.Call) and isinstance(e.left.func, ast.Attribute) and e.left.func.attr == 'strip' and not e.left.args:
+            t, srt = self.expr(e.left.func.value)
+            if srt != 'str':
+                self.fail(e, 'strip of something that is not a string')
+            return ('(is_blank %s)' if isinstance(e.ops[0], ast.Eq) else '(negb (is_blank %s))') % t, 'bool'
         if isinstance(e, ast.Tuple):
             parts = [self.expr(x) for x in e.elts]
             return '(' + ', '.join(p[0] for p in parts) + ')', 'tuple:' + ','.join(p[1] for p in parts)
@@ -297,17 +306,41 @@ class TrLoop(Tr):
             self.nloops += 1
             name = 'g_%s_loop%d' % (self.fname, self.nloops)
             params = list(self.order)
+            uses_break = any(isinstance(n, ast.Break) for n in ast.walk(ast.Module(body=st.body, type_ignores=[])))
+            uses_i_after = any(isinstance(n, ast.Name) and n.id == 'i' for x in rest for n in ast.walk(x))
             saved, saved_order = dict(self.env), list(self.order)
-            self.env['i'] = ('i', 'Z')
-            self.env['c'] = ('c', 'Z')
-            body = self.block(st.body, ('LOOP', name, params))
-            self.env, self.order = dict(saved), list(saved_order)
-            after = self.block(rest, k)
+            if uses_break or uses_i_after:
+                # the statements after the loop become a definition of their own: reached from `break` with the current i, and
+                # from the exhausted loop with the last value i had (start + length - 1; the callers never loop over nothing)
+                self.env['i'] = ('i', 'Z')
+                after_name = name + '_after'
+                after = self.block(rest, k)
+                sig = ' '.join('(%s : %s)' % (self.env[v][0], self.env[v][1]) for v in params)
+                self.out.append('Definition %s (i : Z) %s :=\n  %s.\n' % (after_name, sig, after))
+                self.env, self.order = dict(saved), list(saved_order)
+                self.env['i'] = ('i', 'Z')
+                self.env['c'] = ('c', 'Z')
+                body = self.block(st.body, ('LOOP', name, params, after_name))
+                self.env, self.order = dict(saved), list(saved_order)
+                exhausted = '(%s (i - 1) %s)' % (after_name, ' '.join(self.env[v][0] for v in params))
+            else:
+                self.env['i'] = ('i', 'Z')
+                self.env['c'] = ('c', 'Z')
+                body = self.block(st.body, ('LOOP', name, params, None))
+                self.env, self.order = dict(saved), list(saved_order)
+                exhausted = self.block(rest, k)
             self.env, self.order = saved, saved_order
             sig = ' '.join('(%s : %s)' % (self.env[v][0], self.env[v][1]) for v in params)
             self.out.append('Fixpoint %s (l : str) (i : Z) %s {struct l} :=\n  match l with\n  | [] => %s\n  | c :: r => %s\n  end.\n'
-                            % (name, sig, after, body))
+                            % (name, sig, exhausted, body))
             return '(%s (drop %s %s) %s %s)' % (name, start, subj, start, ' '.join(self.env[v][0] for v in params))
+        if isinstance(st, ast.Break):
+            kk = k
+            while kk is not None and kk[0] != 'LOOP':
+                kk = kk[1]
+            if kk is None or kk[3] is None:
+                raise Unknown('%s: break outside a loop' % self.fname)
+            return '(%s i %s)' % (kk[3], ' '.join(self.env[v][0] for v in kk[2]))
         raise Unknown('%s: unknown statement %s' % (self.fname, ast.dump(st)[:140]))
 
 
@@ -317,26 +350,55 @@ LOOPFUNCS = [('shift_whitespace', ['string', 'index'], False), ('match_link_dest
 ARGS['offset'] = ('offset', 'Z')
 
 
+BLOCKLOOPS = [('match_link_label', ['string', 'offset']), ('match_link_dest', ['string', 'offset']), ('match_link_title', ['string', 'offset'])]
+
+
+def translate_loop_function(f, name, coqname, want, optional, out, skip_first=None):
+    a = f.args
+    names = [x.arg for x in a.args]
+    if skip_first is not None:
+        if not names or names[0] != skip_first:
+            raise Unknown('%s: unknown signature' % name)
+        names = names[1:]
+    if names != want or a.vararg or a.kwarg or a.kwonlyargs or a.defaults:
+        raise Unknown('%s: unknown signature' % name)
+    pre = []
+    tr = TrLoop(coqname, want, pre)
+    tr.optional = optional
+    tr.result = None
+    term = tr.block(f.body)
+    out += pre
+    params = ' '.join('(%s : %s)' % ARGS[x] for x in want)
+    out.append('Definition g_%s %s :=\n  %s.\n' % (coqname, params, term))
+    return tr.result
+
+
 def generate_loops(top):
     out = []
     LOOPSIGS.clear()
     for name, want, optional in LOOPFUNCS:
         if name not in top:
             raise Unknown('function %s not found in core_tokens.py' % name)
-        f = top[name]
-        a = f.args
-        if [x.arg for x in a.args] != want or a.vararg or a.kwarg or a.kwonlyargs or a.defaults or f.decorator_list:
-            raise Unknown('%s: unknown signature' % name)
-        pre = []
-        tr = TrLoop(name, want, pre)
-        tr.optional = optional
-        tr.result = None
-        term = tr.block(f.body)
-        out += pre
-        params = ' '.join('(%s : %s)' % ARGS[x] for x in want)
+        if top[name].decorator_list:
+            raise Unknown('%s: unknown decorators' % name)
         out.append('(* core_tokens.%s *)' % name)
-        out.append('Definition g_%s %s :=\n  %s.\n' % (name, params, term))
-        LOOPSIGS[name] = ([ARGS[x][1] for x in want], ('option:' + tr.result) if optional else tr.result)
+        res = translate_loop_function(top[name], name, name, want, optional, out)
+        LOOPSIGS[name] = ([ARGS[x][1] for x in want], ('option:' + res) if optional else res)
+    # the scanners of link reference definitions: classmethods of block_token.Footnote
+    tree = ast.parse(open(os.path.join(REPO, 'mistletoe', 'block_token.py'), encoding='utf8').read())
+    cls = [n for n in tree.body if isinstance(n, ast.ClassDef) and n.name == 'Footnote']
+    if len(cls) != 1:
+        raise Unknown('class block_token.Footnote not found')
+    meth = {n.name: n for n in cls[0].body if isinstance(n, ast.FunctionDef)}
+    for name, want in BLOCKLOOPS:
+        if name not in meth:
+            raise Unknown('Footnote.%s not found' % name)
+        f = meth[name]
+        decs = [d.id for d in f.decorator_list if isinstance(d, ast.Name)]
+        if decs != ['classmethod'] or len(decs) != len(f.decorator_list):
+            raise Unknown('Footnote.%s: unknown decorators' % name)
+        out.append('(* block_token.Footnote.%s *)' % name)
+        translate_loop_function(f, 'Footnote.' + name, 'fn_' + name, want, True, out, skip_first='cls')
     return out
 
 
